@@ -1,22 +1,22 @@
 SPECIFICATION Spec
-CONSTANTS Clients = {"c1","c2"}
-  RawKeys = {"k1","k2"}
-  CacheKeys = {"k2"}
-  Atoms = {"a","b"}
-  SetLists <- Lists2
-  Indexes <- IdxAll
-  MaxLen = 3
-  Records = {"r1","r2","r3"}
-  CacheSizes = {0,1,2}
-  Paths = {}
-  Payloads = {}
-  MaxPush = 0
-  Times <- NoTimes
+CONSTANTS Clients = {"c1","c2","c3"}
+  RawKeys = {}
+  CacheKeys = {}
+  Atoms = {}
+  SetLists <- NoLists
+  Indexes <- IdxFront
+  MaxLen = 0
+  Records = {}
+  CacheSizes = {}
+  Paths = {"p1","p2"}
+  Payloads = {"x","y"}
+  MaxPush = 40
+  Times <- Times3
   RedMax = 128
-  Ops = {"set","get","append","pop","flush","dump","xset","init","put","grab"}
+  Ops = {"setDBPath","clearDBPath","getDBConnection","pushEvent","logAndFlush","reduction","flush"}
   Dev = "none"
   EmitEdges = FALSE
-VIEW NoLastView
+INVARIANT SimEmit
 INVARIANT TypeOK
 INVARIANT ExclusiveSetAtMostOnce
 INVARIANT WrittenConsistent
@@ -39,4 +39,4 @@ PROPERTY FlushLeavesStackEmpty
 PROPERTY CacheMRU
 PROPERTY CacheEvictsOnlyLRU
 PROPERTY CacheNeverServesPurged
-PROPERTY ReductionRaceBenign
+
